@@ -141,7 +141,8 @@ class SimNet:
         res = self.result
         direction = rec.dir
         fate = "ok"
-        if may_fail and not self.healed and cfg.get("send_error_p", 0.0) and self.s_err.chance(cfg["send_error_p"]):
+        if may_fail and not self.healed and (cfg.get("send_error_p", 0.0) or cfg.get("blocking_send_error_p", 0.0)) \
+                and self.s_err.chance(cfg.get("send_error_p", 0.0) or cfg.get("blocking_send_error_p", 0.0)):
             fate = "send_error"
             res.fault("send_error")
         elif not self.healed and self._in_blackout(now, direction):
@@ -332,7 +333,10 @@ class FakeSocket:
             raise OSError(9, "Bad file descriptor")
         self._ensure_bound()
         self.sent += 1
-        self._net.send(self.local, (addr[0], addr[1]), bytes(data))
+        # a blocking sendto() reports a transient failure (ENETUNREACH while the network comes up ...) by raising
+        fates = self._net.send(self.local, (addr[0], addr[1]), bytes(data), may_fail=bool(self._net.cfg.get("blocking_send_error_p")))
+        if "send_error" in fates:
+            raise OSError(101, "Network is unreachable")
         return len(data)
 
     def recvfrom(self, n):
